@@ -193,7 +193,7 @@ def run(tier="quick", seed=0, replay=None):
     _cv.__enter__()
     quick = tier == "quick"
     reqs, impls = [], []
-    for i in range(chk.count(8, 40)):
+    for i in range(min(chk.count(8, 40), 120)):      # each case drives real river trees through hundreds of updates
         md, gp, L = chk.rng.randint(1, 4), chk.rng.choice([5, 10, 25]), chk.rng.randint(1, 4)
         n = chk.count(120, 1500)
         before = chk.stats.get("leaf_set_changes", 0)
